@@ -3,7 +3,19 @@ import glob, os
 import common
 
 
+STUBS = {
+    "LockPrograms.tla": '---- MODULE LockPrograms ----\n\\* placeholder; ./check C11 regenerates this from the lock events of the real handlers\n'
+                        'Programs == << <<<<"AcqR", "db">>, <<"RelR", "db">>>> >>\n====\n',
+    "RpcSchema.tla": '---- MODULE RpcSchema ----\n\\* placeholder; ./check C09 regenerates this from the real RPC method table\n'
+                     'Schema == [eth_blockNumber |-> <<>>]\nClasses == [u64 |-> {"zero"}]\n====\n',
+}
+
+
 def run():
+    for name, text in STUBS.items():
+        path = os.path.join(common.SPEC, name)
+        if not os.path.exists(path):
+            open(path, "w").write(text)
     common.build_harness()
     bad = 0
     for path in sorted(glob.glob(os.path.join(common.SPEC, "*.tla"))):
